@@ -35,6 +35,12 @@
 (* part "nothing stays down" until the next quiescent point): physical     *)
 (* input while a replay runs, play of the macro being recorded,            *)
 (* time-sensitive keys typed live or replayed near their timeout.          *)
+(* Calm: since fix db302df kanata never reports idle while a recording is  *)
+(* switched on, so "idle" cannot be observed there.  While the monitor's   *)
+(* own bookkeeping says a recording is on (and no late control key has     *)
+(* been seen) it uses instead: every typed event has had its tick, no      *)
+(* tap-hold key can still be undecided, no control key press is pending    *)
+(* and an expected replay has had its full time budget.                    *)
 (* Late control keys: when other input arrives before a record / stop key  *)
 (* press has been processed (a burst, or a tap-hold key still undecided),  *)
 (* the macro is still judged by the order in which the keys were typed,    *)
@@ -67,6 +73,10 @@ MonInit(p) ==
     exp |-> <<>>,      \* expected OS events not yet seen: <<"o", ev>> in order | <<"s", set of release events>>
     replaying |-> FALSE, budget |-> 0,
     mode |-> "sync",   \* "sync" | "lost" (soft zone: wait for the next quiescent point)
+    und |-> 0,         \* ticks a tap-hold key may still be undecided (typed events do not drain meanwhile)
+    stall |-> 0,       \* ticks a tap-hold key may still keep kanata from being idle
+    lateSeen |-> FALSE, \* a late control key was seen and kanata has not reported idle since: whether kanata is
+                       \* recording is not determined by the input order
     lastIdle |-> TRUE, err |-> "" ]
 
 \* ------------------------------------------------------------------ (R) bookkeeping
@@ -115,7 +125,8 @@ RecTick(m) ==      \* the gap after the newest recorded event grows
 \* started / saved is marked late
 MarkLate(m) ==
   [m EXCEPT !.mac = [i \in DOMAIN m.mac |-> IF m.mac[i].id = m.lastSaved THEN [m.mac[i] EXCEPT !.late = TRUE] ELSE m.mac[i]],
-            !.rec = IF m.rec = <<>> THEN <<>> ELSE <<[m.rec[1] EXCEPT !.late = TRUE]>>]
+            !.rec = IF m.rec = <<>> THEN <<>> ELSE <<[m.rec[1] EXCEPT !.late = TRUE]>>,
+            !.lateSeen = TRUE]
 Lose(m) == [m EXCEPT !.mode = "lost", !.exp = <<>>]
 
 \* ------------------------------------------------------------------ (P) expected output
@@ -214,9 +225,11 @@ MonIn(m, r) ==
         \* when will this control key press have been processed?  One queued event per tick (a replayed
         \* event may be queued ahead); with time-sensitive keys only known when kanata was idle
         wait == IF m.lastIdle THEN 1
-                ELSE IF m.p.th # <<>> THEN 99
-                ELSE m.pend + 1 + (IF m.replaying \/ m.mode = "lost" THEN 1 ELSE 0)
-    IN [m3 EXCEPT !.phys = IF isPress THEN @ \cup {r.c} ELSE @ \ {r.c},
+                ELSE m.und + m.pend + 1 + (IF m.replaying \/ m.mode = "lost" THEN 1 ELSE 0)
+        th == ThOf(m.p, r.c)
+    IN [m3 EXCEPT !.und = IF th = <<>> THEN @ ELSE IF isPress THEN th[1].T + 2 ELSE OMin(@, 2),
+                  !.stall = IF th = <<>> THEN @ ELSE 2 * th[1].T + 4,
+                  !.phys = IF isPress THEN @ \cup {r.c} ELSE @ \ {r.c},
                   !.pend = OMin(@ + 1, 40),
                   !.ctlp = IF isCtlPress THEN OMax(wait, m.ctlp) ELSE m.ctlp,
                   !.lastIdle = FALSE]
@@ -237,33 +250,44 @@ MonTick(m, out, idle, cb) ==
   IF m.err # "" THEN m
   ELSE
     LET o == Eff(out, m.down)
-        pend == IF m.pend > 0 THEN m.pend - 1 ELSE 0
-        m1 == [RecTick(m) EXCEPT !.down = o.down, !.pend = pend,
-                                 !.ctlp = IF idle THEN 0 ELSE IF @ > 0 /\ @ < 99 THEN @ - 1 ELSE @,
-                                 !.lastIdle = idle]
-        tag == IF m.replaying /\ m.repLate THEN "C19 [late control key]: " ELSE "C19: "
-        quiet == m.phys = {} /\ idle /\ pend = 0
+        und == IF m.und > 0 THEN m.und - 1 ELSE 0
+        stall == IF m.stall > 0 THEN m.stall - 1 ELSE 0
+        pend == IF m.und > 0 THEN m.pend ELSE IF m.pend > 0 THEN m.pend - 1 ELSE 0
+        ctlp == IF idle THEN 0 ELSE IF m.ctlp > 0 THEN m.ctlp - 1 ELSE 0
+        \* an idle report settles whether kanata records: it does not
+        lateSeen == m.lateSeen /\ ~idle
+        rec0 == IF idle /\ m.lateSeen THEN <<>> ELSE m.rec
+        budget == IF m.replaying /\ m.budget > 0 THEN m.budget - 1 ELSE m.budget
+        \* calm: idle, or what stands for it while a recording is switched on
+        recOn == rec0 # <<>> /\ ~lateSeen
+        \* the expected replay is over: kanata idle, or (recording) its full time budget has passed
+        repDone == ~m.replaying \/ idle \/ (recOn /\ m.budget = 0)
+        calm == idle \/ (recOn /\ pend = 0 /\ und = 0 /\ stall = 0 /\ ctlp = 0 /\ repDone)
+        m1 == [RecTick([m EXCEPT !.rec = rec0]) EXCEPT !.down = o.down, !.pend = pend, !.und = und, !.stall = stall,
+                                 !.ctlp = ctlp, !.lateSeen = lateSeen, !.budget = budget, !.lastIdle = calm]
+        tag == IF (m.replaying /\ m.repLate) \/ m.lateSeen THEN "C19 [late control key]: " ELSE "C19: "
+        quiet == m.phys = {} /\ calm /\ pend = 0
     IN IF m.mode = "lost"
        THEN IF ~quiet THEN m1
-            ELSE IF o.down # {} THEN Fail(m1, "C19: a key is left down (kanata idle, no physical key held)")
+            ELSE IF o.down # {} THEN Fail(m1, tag \o "a key is left down (kanata idle, no physical key held)")
             ELSE [m1 EXCEPT !.mode = "sync", !.exp = <<>>, !.replaying = FALSE, !.repLate = FALSE, !.budget = 0,
                             !.ref = Ref!MonInit(m.p.c04)]
        ELSE LET x == Match(m.exp, o.eff) IN
             IF ~x.ok
             THEN Fail(m1, IF m.replaying THEN tag \o "replay output differs from typing the recorded events again"
-                          ELSE "C19: output differs from the reference for typed keys")
-            ELSE IF idle /\ pend = 0 /\ x.exp # <<>>
+                          ELSE tag \o "output differs from the reference for typed keys")
+            ELSE IF calm /\ pend = 0 /\ x.exp # <<>>
             THEN Fail(m1, IF m.replaying THEN tag \o "replay ended with expected output missing (events dropped or keys not released)"
-                          ELSE "C19: expected output missing")
+                          ELSE tag \o "expected output missing")
             ELSE IF quiet /\ o.down # {}
-            THEN Fail(m1, "C19: a key is left down (kanata idle, no physical key held)")
-            ELSE IF m.replaying /\ ~idle /\ m.budget = 0
-            THEN Fail(m1, "C19: replay does not end")
+            THEN Fail(m1, tag \o "a key is left down (kanata idle, no physical key held)")
+            ELSE IF ~repDone /\ m.budget = 0
+            THEN Fail(m1, tag \o "replay does not end")
             \* a replay that involved a late macro has ended: resynchronise at the next quiescent point
-            ELSE IF m.replaying /\ idle /\ m.repLate THEN Lose([m1 EXCEPT !.replaying = FALSE, !.repLate = FALSE, !.budget = 0])
+            ELSE IF m.replaying /\ repDone /\ m.repLate THEN Lose([m1 EXCEPT !.replaying = FALSE, !.repLate = FALSE, !.budget = 0])
             ELSE [m1 EXCEPT !.exp = x.exp,
-                            !.replaying = m.replaying /\ ~idle,
-                            !.budget = IF m.replaying /\ ~idle THEN m.budget - 1 ELSE 0]
+                            !.replaying = ~repDone,
+                            !.budget = IF ~repDone THEN budget ELSE 0]
 
 \* n silent ticks
 RECURSIVE MonSilent(_, _, _, _)
